@@ -6,13 +6,14 @@
    compiler and destructors, independently of the input length.
 
    Statements only; proofs in Proofs/ParseDepthProofs.v, ParseDepthLimits.v, ParseDepthAst.v,
-   ParseDepthNoPanic.v; the lexer half cites Props/C08.v and Props/C12.v.
+   ParseDepthNoPanic.v; the lexer half cites Props/C08.v and Props/C12.v and adds Proofs/LexerBoundary.v.
    `cfg` = the five limits of the parser; `cfg_tree` = their values in the working tree
    (re-extracted on every run: Gen/Tables.v, Gen/ParseLimits.v); `cfg_unrepaired` = the tree
    before fixes/D11-ast-depth.patch (no MAX_EXPRESSION_DEPTH / MAX_ELIF_DEPTH). *)
 From Coq Require Import List Arith ZArith Lia.
 From TeraV Require Import Model.Value Model.Instr Model.Optimize Proofs.OptimizeProofs Props.C09.
-From TeraV Require Spec.Utf8Chars Model.Lexer Model.Report Proofs.LexerSpans Props.C08 Props.C12.
+From TeraV Require Spec.Utf8Chars Spec.Doc Model.Lexer Model.LexerSlices Model.Report Proofs.LexerSpans
+  Proofs.LexerBoundary Props.C08 Props.C12.
 From TeraV Require Import Gen.Tables Gen.ParseLimits Model.ParseDepth
   Proofs.ParseDepthProofs Proofs.ParseDepthLimits Proofs.ParseDepthAst Proofs.ParseDepthNoPanic.
 Import ListNotations.
@@ -143,30 +144,66 @@ Proof. exists [TAtom]. vm_compute. split; [reflexivity | exact I]. Qed.
      3. SLICING (C12_advance_total_on_boundaries / C12_advance_panics_off_boundary, Model/Report.v):
         advance!(n) = split_at(n) + location bookkeeping succeeds, with both pieces valid UTF-8
         again, exactly when n is a character boundary of the valid-UTF-8 rest, and panics otherwise.
-   PARTIAL - what is missing for "no slicing panic": that the offsets the lexer model computes ARE
-   character boundaries.  Model/Lexer.v states in its header that the boundary test of
-   split_at / get(..) is not modelled (offsets are next to ASCII bytes or 2-byte delimiters), and
-   no theorem of C08 or C12 derives it; nor are `&s[1..s.len() - 1]` in lex_string!, f64 parsing
-   and the Display of tokens modelled.  These stay with the runtime oracle of this property
-   (streams `multibyte-at-delimiter`, `delimiters` with 2-byte-character delimiters, every prefix
-   and single-character deletion of the corpus: a slicing panic would be a dead child or a caught
-   panic) and with C12's implementation-side span check. *)
-Theorem C06_lexer_total_and_boundary_safe_partial :
+     4. EVERY CUT IS ON A CHARACTER BOUNDARY (new here; Model/LexerSlices.v, Proofs/LexerBoundary.v).
+        Model/LexerSlices.v lists, next to the token model, every offset into the source at which
+        basic_tokenize cuts its `&str` - each advance!(n) (check_ws_start!, raw block, comment, text,
+        whitespace in a tag, end delimiters, spread and operators, lex_number!, lex_string!,
+        identifiers), `&s[1..s.len() - 1]` of lex_string!, `&rest.as_bytes()[offset..]`,
+        `&rest[offset..]` and `&rest[body_start..body_end]` of the raw-block loop - also for a run
+        that ends in a syntax error (the cuts made before the error).  Theorem: for every delimiter
+        set accepted by validate whose six strings are valid UTF-8 and every valid UTF-8 source, every
+        one of these offsets is a character boundary of the source.
+        The UTF-8 hypothesis on the delimiters is not an extra assumption about the caller: the
+        fields of `Delimiters` are `Cow<'static, str>` (delimiters.rs 9-22), and a Rust `str` is valid
+        UTF-8 by type invariant; validate (delimiters.rs 39-87) adds `len() == 2`, so a delimiter is two
+        ASCII characters or one 2-byte character - it cannot be a fragment of a character.  (The
+        model type `delims` holds arbitrary byte lists, hence the explicit hypothesis
+        `LexerSlices.delims_utf8`.)  The proof is UTF-8 self-synchronisation: a byte that announces
+        a k-byte character is, in a valid string, followed k bytes later by a boundary; so a byte
+        match of a delimiter (memstr, find_start_marker, starts2) starts and ends on boundaries and
+        every run that ends in an ASCII byte ends on one.
+     5. `rest.get(a..a+2) == Some(delim)` - the CHECKED slice, None off a boundary - is the byte
+        comparison Model/Lexer.v uses for it (C06_checked_get_is_byte_test): on valid UTF-8 the
+        bytes of a delimiter cannot start or end inside a character, so the model is not wrong
+        about the boundary test it does not perform.
+     6. Hence no slicing panic (fourth conjunct below): at a position reached by a listed cut, an
+        advance!(k) to another listed cut returns the two pieces, both valid UTF-8 again.
+   Not modelled, left to the runtime oracle: `num.parse::<f64>()`, the Display of tokens inside
+   error messages, `strip_prefix` / `trim_start` / `trim_end` (std functions on `str` that cannot
+   cut off a boundary).  Correspondence: family `slices` (Corr/CorrC06Lex.v) compares the model's
+   token byte ranges with the real lexer's and checks that every real token start/end is one of
+   the listed offsets, on sources with multi-byte characters next to every kind of delimiter and
+   on 2-byte-character delimiter sets. *)
+Theorem C06_lexer_total_and_boundary_safe :
   (forall dl src, Lexer.validate dl = Value.ROk tt ->
      Lexer.lex_ptoks dl src <> Value.RErr Value.ErrPanic) /\
   (forall dl src pt s e, Lexer.validate dl = Value.ROk tt -> Lexer.lex_ptoks dl src = Value.ROk pt ->
      In (s, e) (LexerSpans.offsets 0 pt) -> s <= e /\ e <= length src) /\
-  (forall st rest n, Utf8Chars.valid_utf8 rest -> n <= length rest ->
-     Report.is_char_boundary rest n = true ->
-     exists st', Report.advance st rest n = Some (st', firstn n rest, skipn n rest) /\
-       Utf8Chars.valid_utf8 (firstn n rest) /\ Utf8Chars.valid_utf8 (skipn n rest) /\
-       st' = Report.advance_over st (firstn n rest)) /\
+  (forall dl src, Lexer.validate dl = Value.ROk tt -> LexerSlices.delims_utf8 dl ->
+     Utf8Chars.valid_utf8 src ->
+     forall n, In n (LexerSlices.slice_offsets dl src) -> Report.is_char_boundary src n = true) /\
+  (forall src p rest k st, Utf8Chars.valid_utf8 src -> src = p ++ rest ->
+     Report.is_char_boundary src (length p) = true ->
+     Report.is_char_boundary src (length p + k) = true ->
+     exists st', Report.advance st rest k = Some (st', firstn k rest, skipn k rest) /\
+       Utf8Chars.valid_utf8 (firstn k rest) /\ Utf8Chars.valid_utf8 (skipn k rest) /\
+       Utf8Chars.valid_utf8 rest) /\
   (forall st rest n, Report.is_char_boundary rest n = false -> Report.advance st rest n = None).
-Proof.
-  split; [exact C08.C08_lexer_total|].
-  split; [exact C08.C08_token_ranges_in_source|].
-  split; [exact C12.C12_advance_total_on_boundaries | exact C12.C12_advance_panics_off_boundary].
-Qed.
+Proof. exact LexerBoundary.lexer_total_and_boundary_safe. Qed.
+
+(* the checked form `rest.get(a..a+2)` agrees with the byte window the model compares *)
+Theorem C06_checked_get_is_byte_test : forall s d a,
+  Utf8Chars.valid_utf8 s -> Utf8Chars.valid_utf8 d -> length d = 2 ->
+  (LexerSlices.get2 s a = Some d <-> Doc.window s a = d).
+Proof. exact LexerBoundary.get2_is_window. Qed.
+
+(* the hypothesis on the delimiters is needed by the MODEL (whose delimiters are byte lists): with
+   the second half of `é` and the first half of another character as "delimiter" - not a Rust
+   str - the run cuts inside a character *)
+Theorem C06_boundary_needs_utf8_delimiters :
+  exists dl src, Lexer.validate dl = Value.ROk tt /\ Utf8Chars.valid_utf8 src /\
+    exists n, In n (LexerSlices.slice_offsets dl src) /\ Report.is_char_boundary src n = false.
+Proof. exact LexerBoundary.boundary_needs_utf8_delimiters. Qed.
 
 (* THE FUSION PASS NEVER INDEXES OUT OF BOUNDS (panic-freedom of Chunk::optimize): for every
    chunk whose jump targets are in range the ported pass returns Some, i.e. no index_map /
@@ -187,7 +224,9 @@ Print Assumptions C06_nesting_limit_is_syntax_error_parens.
 Print Assumptions C06_optimize_indices_in_bounds.
 Print Assumptions C06_parser_unreachables_unreachable.
 Print Assumptions C06_parser_unreachable_reached_off_lexer_streams.
-Print Assumptions C06_lexer_total_and_boundary_safe_partial.
+Print Assumptions C06_lexer_total_and_boundary_safe.
+Print Assumptions C06_checked_get_is_byte_test.
+Print Assumptions C06_boundary_needs_utf8_delimiters.
 
 (* non-vacuity: real runs with enough fuel *)
 Example C06_ex_accepts :
